@@ -120,45 +120,34 @@ end
 
   The layout functions produce a list of PIECES instead of a string, so that the comments
   copied from the tree stay identifiable in the output: `render` concatenates the pieces and
-  is the text `formatter.rs` returns.  A comment piece remembers the comment of the tree it
-  was copied from (`orig`) and the text it contributes to the output (`shown`).  They are the
-  same string wherever a comment is emitted; the only code that rewrites already formatted
-  text — the `lines()` / `join("\n")` round trip in `format_binary_op_multiline` — changes
-  `shown` (it deletes a carriage return in front of a line feed), see `relineP`. -/
+  is the text `formatter.rs` returns.  A comment piece is the text of a comment of the tree,
+  unchanged: no function of `formatter.rs` rewrites text it has already formatted (until
+  repo commit 6027914 `format_binary_op_multiline` did, through `lines()` / `join("\n")`). -/
 
 inductive Piece where
   | text (s : String)
-  | comment (orig shown : String)
+  | comment (s : String)
   deriving Repr, DecidableEq, Inhabited
 
 def Piece.shown : Piece → String
   | .text s => s
-  | .comment _ s => s
-
-/-- same kind of piece (and same `orig`), other text -/
-def Piece.withShown : Piece → String → Piece
-  | .text _, s => .text s
-  | .comment o _, s => .comment o s
+  | .comment s => s
 
 /-- the formatter's output text -/
 def render (ps : List Piece) : String := String.join (ps.map Piece.shown)
 
-/-- the comments in the output, as they appear there, in output order -/
+/-- the comments in the output, in output order -/
 def commentPieces (ps : List Piece) : List String :=
-  ps.filterMap fun | .comment _ s => some s | .text _ => none
-
-/-- the comments of the tree that the comment pieces were copied from, in output order -/
-def commentOrigs (ps : List Piece) : List String :=
-  ps.filterMap fun | .comment o _ => some o | .text _ => none
+  ps.filterMap fun | .comment s => some s | .text _ => none
 
 /-- leading comments, each on its own line (`for comment in &item.leading { … }`) -/
 def leadP (indentStr : String) : List String → List Piece
   | [] => []
-  | c :: cs => .text ("\n" ++ indentStr) :: .comment c c :: leadP indentStr cs
+  | c :: cs => .text ("\n" ++ indentStr) :: .comment c :: leadP indentStr cs
 
 /-- trailing comment on the line of its item -/
 def trailP : Option String → List Piece
-  | some t => [.text "  ", .comment t t]
+  | some t => [.text "  ", .comment t]
   | none => []
 
 def parenP (b : Bool) (ps : List Piece) : List Piece :=
@@ -169,73 +158,6 @@ def protectP (ps : List Piece) : List Piece :=
   match (render ps).toList with
   | '-' :: _ => .text "(" :: (ps ++ [.text ")"])
   | _ => ps
-
-/-! #### `lines()` and the re-join of `format_binary_op_multiline` -/
-
-/-- put a character in front of the first line -/
-def consLine (c : Char) : List (List Char) → List (List Char)
-  | [] => [[c]]
-  | l :: ls => (c :: l) :: ls
-
-/-- `str::lines()` on characters: lines end at `'\n'`; a line that was ended by `'\n'` loses
-    one `'\r'` in front of it; what follows the last `'\n'` is a line only if it is not
-    empty, and keeps a `'\r'` at its end -/
-def linesL : List Char → List (List Char)
-  | [] => []
-  | c :: t =>
-    if c == '\n' then [] :: linesL t
-    else if c == '\r' && t.head? == some '\n' then linesL t
-    else consLine c (linesL t)
-
-def rustLines (s : String) : List String := (linesL s.toList).map String.ofList
-
-/-- `lines().skip(1).collect::<Vec<_>>().join("\n")` -/
-def restLines (s : String) : String := "\n".intercalate ((rustLines s).drop 1)
-
-/-- `format!("{}\n{}", s.lines().next().unwrap_or(s), s.lines().skip(1)…join("\n"))`:
-    what the via / into / where branch makes of the formatted right operand -/
-def relines (s : String) : String := firstLine s ++ "\n" ++ restLines s
-
-/-- delete every `'\r'` that stands directly in front of a `'\n'`; `next` is the character
-    that follows the list -/
-def stripCRs (next : Option Char) : List Char → List Char
-  | [] => []
-  | c :: t =>
-    if c == '\r' && (t.head? <|> next) == some '\n' then stripCRs next t
-    else c :: stripCRs next t
-
-/-- first character of the rendered text -/
-def firstCharP : List Piece → Option Char
-  | [] => none
-  | p :: rest =>
-    match p.shown.toList with
-    | c :: _ => some c
-    | [] => firstCharP rest
-
-/-- `stripCRs` over the rendered text, piece by piece -/
-def stripP : List Piece → List Piece
-  | [] => []
-  | p :: rest =>
-    p.withShown (String.ofList (stripCRs (firstCharP rest) p.shown.toList)) :: stripP rest
-
-/-- (pieces in reverse order) delete the last character of the text if it is `'\n'` -/
-def dropFinalNlRev : List Piece → List Piece
-  | [] => []
-  | p :: before =>
-    if p.shown.toList.isEmpty then p :: dropFinalNlRev before
-    else if p.shown.toList.getLast? == some '\n' then
-      p.withShown (String.ofList p.shown.toList.dropLast) :: before
-    else p :: before
-
-def dropFinalNl (ps : List Piece) : List Piece := (dropFinalNlRev ps.reverse).reverse
-
-/-- `relines` on pieces (for a text with a line break): the `lines()` round trip deletes a
-    `'\r'` in front of every `'\n'`, and the final `'\n'` of a text that ends with one and
-    has another one before it.  Nothing else changes, so the pieces stay what they were. -/
-def relineP (ps : List Piece) : List Piece :=
-  let qs := stripP ps
-  let cs := (render qs).toList
-  if cs.getLast? == some '\n' && decide (2 ≤ cs.count '\n') then dropFinalNl qs else qs
 
 /-! #### the layouts
 
@@ -305,9 +227,7 @@ def binLayout (w indent : Nat) (op : BinOp) (l r : Expr) (lP : List Piece)
     let rsP := parenP rp (rSame ())
     let rs := render rsP
     let combined := render lsP ++ " " ++ opStr ++ " " ++ firstLine rs
-    if indent + blen combined ≤ w then
-      if hasNewline rs then lsP ++ .text (" " ++ opStr ++ " ") :: relineP rsP
-      else lsP ++ .text (" " ++ opStr ++ " ") :: rsP
+    if indent + blen combined ≤ w then lsP ++ .text (" " ++ opStr ++ " ") :: rsP
     else lsP ++ .text ("\n" ++ makeIndent indent ++ opStr ++ " ") :: rsP
   else
     lsP ++ .text ("\n" ++ makeIndent (indent + INDENT_SIZE) ++ opStr ++ " ") :: parenP rp (rIn ())
